@@ -31,6 +31,7 @@ pub fn show_mods(m: &Mods) -> String {
         match m.timeout { None => "none".to_string(), Some(t) => t.to_string() },
         match m.opts { None => "none".to_string(), Some((d, t, tl, sl)) => format!("{}.{}.{}.{}", d, if t { 1 } else { 0 }, tl, sl) })
 }
+pub fn show_base_mods(m: &Mods) -> String { let t = show_mods(m); format!("k{}", &t[1..]) }
 pub fn parse_mods(s: &str) -> Mods {
     let f: Vec<&str> = s.split(':').collect();
     Mods {
@@ -108,10 +109,14 @@ pub fn gen(rng: &mut Rng, n: usize, out: &mut Vec<String>) {
             let o = if j == k - 1 && rng.chance(1, 10) { Op::Unbind } else { rand_op(rng) };
             // one call in eight gets no answer and ends in a timeout (its modifiers are spent all the same)
             if j + 1 < k && rng.chance(1, 8) && !matches!(o, Op::Abandon(_) | Op::Unbind) { m.withheld = true; if m.timeout.is_none() { m.timeout = Some(1000 + rng.below(3000)); } }
+            // one call in six goes through a clone made while modifiers are pending on the handle (they must reach the handle's NEXT own operation)
+            if rng.chance(1, 6) && !matches!(o, Op::Unbind) { let mut mb = rand_mods(rng); if mb.ctrls.is_none() && mb.opts.is_none() { mb.opts = Some((3, true, 9, 7)); } toks.push(show_base_mods(&mb)); }
             toks.push(show_mods(&m)); toks.push(show_op(&o));
         }
         out.push(format!("req {}", toks.join(" ")));
     }
+    // modifiers pending on a handle when it is cloned: the clone's operation must not carry them, the handle's next one must
+    out.push("req k:312e32.1.none:none:3.1.9.7 m:none:none:none delete/64633d78 m:none:none:none search/64633d78/2/28613d6229/~".into());
     // a timed-out operation in the middle: what it carried must not reach the next operation
     out.push("req M:none:1500:3.1.9.7 delete/64633d78 m:none:none:none search/64633d78/2/28613d6229/~".into());
     out.push("req M:312e32.1.none:1500:none compare/64633d78/636e/78 m:none:none:none delete/64633d78".into());
@@ -154,8 +159,44 @@ async fn server_task(mut sess_server: tokio::io::DuplexStream, log: std::sync::A
     }
 }
 
+fn set_mods(l: &mut ldap3::Ldap, m: &Mods) {
+    if let Some(cs) = &m.ctrls { l.with_controls(cs.iter().map(|(o, c, v)| RawControl { ctype: s(o), crit: *c, val: v.clone() }).collect::<Vec<_>>()); }
+    if let Some(t) = m.timeout { l.with_timeout(Duration::from_millis(t)); }
+    if let Some((d, ty, tl, sl)) = m.opts {
+        let de = match d { 0 => DerefAliases::Never, 1 => DerefAliases::Searching, 2 => DerefAliases::Finding, _ => DerefAliases::Always };
+        l.with_search_options(SearchOptions::new().deref(de).typesonly(ty).timelimit(tl as i32).sizelimit(sl as i32));
+    }
+}
+async fn invoke(ldap: &mut ldap3::Ldap, op: &Op) -> Option<String> {
+    match op {
+        Op::Bind(d, p) => ldap.simple_bind(&s(d), &s(p)).await.err().map(|e| err_class(&e).to_string()),
+        Op::Sasl => ldap.sasl_external_bind().await.err().map(|e| err_class(&e).to_string()),
+        Op::Search(b, sc, f, at) => { let scope = match sc { 0 => Scope::Base, 1 => Scope::OneLevel, _ => Scope::Subtree };
+            ldap.search(&s(b), scope, &s(f), at.iter().map(|a| s(a)).collect::<Vec<_>>()).await.err().map(|e| err_class(&e).to_string()) }
+        Op::Add(d, avs) => ldap.add(&s(d), avs.iter().map(|(a, vs)| (a.clone(), vs.iter().cloned().collect::<HashSet<_>>())).collect()).await.err().map(|e| err_class(&e).to_string()),
+        Op::Compare(d, a, v) => ldap.compare(&s(d), &s(a), v).await.err().map(|e| err_class(&e).to_string()),
+        Op::Delete(d) => ldap.delete(&s(d)).await.err().map(|e| err_class(&e).to_string()),
+        Op::Modify(d, ms) => ldap.modify(&s(d), ms.iter().map(|(k, a, vs)| { let set: HashSet<Vec<u8>> = vs.iter().cloned().collect();
+            match k { 0 => Mod::Add(a.clone(), set), 1 => Mod::Delete(a.clone(), set), 2 => Mod::Replace(a.clone(), set), _ => Mod::Increment(a.clone(), vs.first().cloned().unwrap_or_default()) } }).collect()).await.err().map(|e| err_class(&e).to_string()),
+        Op::ModDn(d, r, del, ns) => ldap.modifydn(&s(d), &s(r), *del, ns.as_ref().map(|x| s(x)).as_deref()).await.err().map(|e| err_class(&e).to_string()),
+        Op::Ext(n, v) => ldap.extended(Exop { name: Some(s(n)), val: v.clone() }).await.err().map(|e| err_class(&e).to_string()),
+        Op::Abandon(i) => ldap.abandon(*i as i32).await.err().map(|e| err_class(&e).to_string()),
+        Op::Unbind => ldap.unbind().await.err().map(|e| err_class(&e).to_string()),
+    }
+}
+fn overlay(p: &Mods, m: &Mods) -> Mods {
+    Mods { ctrls: m.ctrls.clone().or(p.ctrls.clone()), timeout: m.timeout.or(p.timeout), opts: m.opts.or(p.opts), withheld: m.withheld }
+}
+
+/// A case is a list of steps: `m:.. <op>` = set the modifiers on the handle and invoke the operation on it; `k:.. m:.. <op>` = set the first
+/// modifiers on the handle and leave them pending, clone the handle, set the second modifiers on the clone and invoke the operation on the clone.
 pub fn run(_lane: &str, args: &[&str]) -> (String, Option<String>) {
-    let calls: Vec<(Mods, Op)> = args.chunks(2).map(|c| (parse_mods(c[0]), parse_op(c[1]))).collect();
+    let mut calls: Vec<(Option<Mods>, Mods, Op)> = vec![];
+    let mut i = 0;
+    while i + 1 < args.len() {
+        if args[i].starts_with("k:") && i + 2 < args.len() { calls.push((Some(parse_mods(args[i])), parse_mods(args[i + 1]), parse_op(args[i + 2]))); i += 3; }
+        else { calls.push((None, parse_mods(args[i]), parse_op(args[i + 1]))); i += 2; }
+    }
     let rt = runtime();
     let res = std::panic::catch_unwind(std::panic::AssertUnwindSafe(|| rt.block_on(async {
         let Sess { mut ldap, server, driver: _driver, .. } = new_sess();
@@ -163,30 +204,16 @@ pub fn run(_lane: &str, args: &[&str]) -> (String, Option<String>) {
         let silent = std::sync::Arc::new(std::sync::Mutex::new(HashSet::new()));
         tokio::spawn(server_task(server, log.clone(), silent.clone()));
         let mut outs: Vec<String> = vec![]; let mut oracle: Option<String> = None; let mut next_id = 1i64;
-        for (m, op) in &calls {
-            if let Some(cs) = &m.ctrls { ldap.with_controls(cs.iter().map(|(o, c, v)| RawControl { ctype: s(o), crit: *c, val: v.clone() }).collect::<Vec<_>>()); }
-            if let Some(t) = m.timeout { ldap.with_timeout(Duration::from_millis(t)); }
-            if let Some((d, ty, tl, sl)) = m.opts {
-                let de = match d { 0 => DerefAliases::Never, 1 => DerefAliases::Searching, 2 => DerefAliases::Finding, _ => DerefAliases::Always };
-                ldap.with_search_options(SearchOptions::new().deref(de).typesonly(ty).timelimit(tl as i32).sizelimit(sl as i32));
-            }
+        let none = Mods { ctrls: None, timeout: None, opts: None, withheld: false };
+        let mut pend = none.clone();          // oracle: what has been set on the base handle since its last own operation
+        for (mb, m, op) in &calls {
             if m.withheld { silent.lock().unwrap().insert(next_id); }
             let before = log.lock().unwrap().len();
-            let sent_err: Option<String> = match op {
-                Op::Bind(d, p) => ldap.simple_bind(&s(d), &s(p)).await.err().map(|e| err_class(&e).to_string()),
-                Op::Sasl => ldap.sasl_external_bind().await.err().map(|e| err_class(&e).to_string()),
-                Op::Search(b, sc, f, at) => { let scope = match sc { 0 => Scope::Base, 1 => Scope::OneLevel, _ => Scope::Subtree };
-                    ldap.search(&s(b), scope, &s(f), at.iter().map(|a| s(a)).collect::<Vec<_>>()).await.err().map(|e| err_class(&e).to_string()) }
-                Op::Add(d, avs) => ldap.add(&s(d), avs.iter().map(|(a, vs)| (a.clone(), vs.iter().cloned().collect::<HashSet<_>>())).collect()).await.err().map(|e| err_class(&e).to_string()),
-                Op::Compare(d, a, v) => ldap.compare(&s(d), &s(a), v).await.err().map(|e| err_class(&e).to_string()),
-                Op::Delete(d) => ldap.delete(&s(d)).await.err().map(|e| err_class(&e).to_string()),
-                Op::Modify(d, ms) => ldap.modify(&s(d), ms.iter().map(|(k, a, vs)| { let set: HashSet<Vec<u8>> = vs.iter().cloned().collect();
-                    match k { 0 => Mod::Add(a.clone(), set), 1 => Mod::Delete(a.clone(), set), 2 => Mod::Replace(a.clone(), set), _ => Mod::Increment(a.clone(), vs.first().cloned().unwrap_or_default()) } }).collect()).await.err().map(|e| err_class(&e).to_string()),
-                Op::ModDn(d, r, del, ns) => ldap.modifydn(&s(d), &s(r), *del, ns.as_ref().map(|x| s(x)).as_deref()).await.err().map(|e| err_class(&e).to_string()),
-                Op::Ext(n, v) => ldap.extended(Exop { name: Some(s(n)), val: v.clone() }).await.err().map(|e| err_class(&e).to_string()),
-                Op::Abandon(i) => ldap.abandon(*i as i32).await.err().map(|e| err_class(&e).to_string()),
-                Op::Unbind => ldap.unbind().await.err().map(|e| err_class(&e).to_string()),
+            let (sent_err, eff): (Option<String>, Mods) = match mb {
+                None => { set_mods(&mut ldap, m); let eff = overlay(&pend, m); pend = none.clone(); (invoke(&mut ldap, op).await, eff) }
+                Some(mb) => { set_mods(&mut ldap, mb); pend = overlay(&pend, mb); let mut k = ldap.clone(); set_mods(&mut k, m); (invoke(&mut k, op).await, m.clone()) }
             };
+            let m = &eff;
             settle().await;
             let reqs: Vec<Vec<u8>> = log.lock().unwrap()[before..].to_vec();
             if reqs.len() > 1 { outs.push(format!("several-requests:{}", reqs.len())); oracle.get_or_insert("one call wrote more than one LDAPMessage".into()); continue; }
